@@ -90,7 +90,7 @@ type Other {{ name: String }}
 "#)
 }
 
-// @grid c19_grid_acceptance_matches_rules tier=quick bound="a 3-level interface hierarchy (Top <- Mid <- Leaf) x both orders of Leaf's implements list x 16 valid and 30 invalid variations of Leaf's inherited fields, implements list and the surrounding types; 9 valid and 12 invalid parameter default values"
+// @grid c19_grid_acceptance_matches_rules tier=quick bound="a 3-level interface hierarchy (Top <- Mid <- Leaf) x both orders of Leaf's implements list x 16 valid and 30 invalid variations of Leaf's inherited fields, implements list and the surrounding types; 9 valid and 12 invalid parameter default values; 6 interface chains (transitivity at every depth); 8 default values at every position among 2-3 parameters"
 // @ob Schema::parse accepts a document exactly when the documented rules hold: interfaces exist and are implemented transitively, inherited fields are present and only narrowed with respect to every implemented interface, inherited parameters are neither dropped nor added, field types are built-in scalars or defined vertex types, no reserved names, no edges into the root type, properties take no parameters, default values fit their parameter's type, no implementation cycles
 pub(crate) fn c19_grid_acceptance_matches_rules() {
     let mut n = 0u64;
@@ -148,6 +148,17 @@ pub(crate) fn c19_grid_acceptance_matches_rules() {
         ("duplicate type", hierarchy("Top & Mid", base, "type Other { name: String }", ""), false),
     ];
     for (label, text, expect) in structure { check(label.to_string(), text, expect, &mut failures); n += 1; }
+    // transitivity is required of interfaces as well, at every depth
+    let chain = |lowest_implements: &str, bottom: &str| hierarchy("Top & Mid", base, &format!("interface Low implements {lowest_implements} {{ p: Int!  e: Low  q(x: Int): [Low] }}  {bottom}"), "");
+    let chains: [(&str, String, bool); 6] = [
+        ("interface implementing Mid and Top", chain("Mid & Top", ""), true),
+        ("interface implementing only Mid (Top not listed)", chain("Mid", ""), false),
+        ("interface implementing only Mid, with a complete object type below it", chain("Mid", "type Bottom implements Top & Mid & Low { p: Int!  e: Low  q(x: Int): [Low] }"), false),
+        ("object type below a complete interface chain, itself incomplete", chain("Mid & Top", "type Bottom implements Low & Mid { p: Int!  e: Low  q(x: Int): [Low] }"), false),
+        ("object type below a complete interface chain", chain("Top & Mid", "type Bottom implements Low & Mid & Top { p: Int!  e: Bottom  q(x: Int): [Bottom!] }"), true),
+        ("fourth level interface missing the topmost one", chain("Mid & Top", "interface Lower implements Low & Mid { p: Int!  e: Lower  q(x: Int): [Lower] }"), false),
+    ];
+    for (label, text, expect) in chains { check(label.to_string(), text, expect, &mut failures); n += 1; }
     // default values of edge parameters
     let defaults: [(&str, bool); 21] = [
         ("x: Int = 1", true), ("x: Int = null", true), ("x: [Int] = [1, null]", true), (r#"x: String = "a""#, true), ("x: Float = 1.5", true), ("x: Boolean = true", true),
@@ -162,6 +173,17 @@ pub(crate) fn c19_grid_acceptance_matches_rules() {
             check(format!("default value on an {place} parameter: {param}"), text, expect, &mut failures); n += 1;
         }
     }
+    // the position of the parameter that carries the default must not matter
+    let bad = [r#"second: String = 123"#, "second: Int! = null", "second: [Int!] = [null]", "second: Int = {a: 1}"];
+    let good = [r#"second: String = "s""#, "second: Int! = 3", "second: [Int!] = [4]", "second: Int = null"];
+    let others = ["first: Int!", "first: Int", "first: String = \"ok\"", "first: [Int]"];
+    for (list, expect) in [(&bad, false), (&good, true)] { for dflt in list.iter() { for other in others {
+        for params in [format!("{other}, {dflt}"), format!("{dflt}, {other}"), format!("{other}, {dflt}, third: Boolean"), format!("zero: Float, {other}, {dflt}")] {
+            check(format!("edge parameters ({params})"), hierarchy("Top & Mid", base, &format!("type Holder {{ name: String  to({params}): [Other] }}"), ""), expect, &mut failures);
+            check(format!("entrypoint parameters ({params})"), hierarchy("Top & Mid", base, "", "").replace("Other: Other", &format!("Other: Other  Param({params}): [Other]")), expect, &mut failures);
+            n += 2;
+        }
+    } } }
     vk::grid_done("c19_grid_acceptance_matches_rules", n);
     if !failures.is_empty() { panic!("schema acceptance differs from the documented rules: {{{}}}", failures.into_iter().collect::<Vec<_>>().join("; ")); }
 }
